@@ -760,7 +760,7 @@ Section Model.
           _ <- name_validate t (st_name st) ;; Ok tt
         else if str_eqb (tx_recipient t) c_aergo_enterprise then
           _ <- ent_validate e (tx_ci t) (st_ent st) ;; Ok tt
-        else Ok tt
+        else Err ERecipient      (* ValidateWithSenderState: default case of the governance recipient switch *)
     | _ => Ok tt
     end.
 
@@ -778,8 +778,21 @@ Section Model.
         else if str_eqb (tx_recipient t) c_aergo_enterprise then
           _ <- ent_exec e (tx_ci t) (st_ent st) ;; Ok tt
         else Err ERecipient
-    | _ => Ok tt
+    (* contract.Execute with the VM as an oracle (C01-C04, C20); fee delegation likewise *)
+    | TNormal | TTransfer | TCall | TMulticall | TDeploy | TRedeploy | TFeeDeleg => Ok tt
+    (* no case of executeTx's `switch txBody.Type`: txFee stays nil and
+       bs.BpReward.Add(&bs.BpReward, txFee) dereferences it *)
+    | TOther => Panic ("chain.executeTx", "nilptr", "bs.BpReward.Add(&bs.BpReward, txFee)")
     end.
+
+  (** the transaction types with a case in executeTx's dispatch (compared with the generated list) *)
+  Definition exec_dispatch_types : list string :=
+    ["TxType_NORMAL"; "TxType_TRANSFER"; "TxType_CALL"; "TxType_MULTICALL"; "TxType_DEPLOY"; "TxType_REDEPLOY";
+     "TxType_GOVERNANCE"; "TxType_FEEDELEGATION"].
+  (** the transaction types Tx.Validate admits *)
+  Definition validate_types : list string :=
+    ["TxType_REDEPLOY"; "TxType_NORMAL"; "TxType_GOVERNANCE"; "TxType_FEEDELEGATION"; "TxType_TRANSFER"; "TxType_CALL";
+     "TxType_DEPLOY"; "TxType_MULTICALL"].
 
   (* ---------------------------------------------------------------- stored-data well-formedness *)
   Definition staking_wf (raw : str) : bool := match raw with [] => true | _ => Nat.leb 8 (List.length raw) end.
